@@ -142,7 +142,8 @@ pub(crate) fn read_escaped_string(
                     'z' => {
                         while chars
                             .peek()
-                            .filter(|(_, char)| char.is_ascii_whitespace())
+                            // `is_ascii_whitespace` does not include the vertical tab
+                            .filter(|(_, char)| char.is_ascii_whitespace() || *char == '\u{B}')
                             .is_some()
                         {
                             chars.next();
